@@ -17,4 +17,4 @@ def run(ctx):
         "histories of 20-150 records drawn from small pools (4 addresses, 5 names, 4 class/types, 4 fixed malformed-message bodies, 3 fixed "
         "query/response records re-submitted with only time and id changed) so that every table sees repeated and distinct values, with blocks "
         "of up to 10000 items and flushes in between. Independent parse of every block: no two equal entries in any of the nine tables, every "
-        "stored index in range and denoting the submitted value (records compare equal), tables of the next block start empty", related=("C04",))
+        "stored index in range and denoting the submitted value (records compare equal), tables of the next block start empty", related=("C04", "C01"))
